@@ -3691,6 +3691,12 @@ func (r *JournalReader) Next() (err error) {
 	if r.offset == 0 {
 		r.sectorSize = binary.BigEndian.Uint32(hdr[20:])
 
+		// SQLite ignores a journal whose sector size is not a power of two
+		// between 32 and 64KB. A zero sector size would never advance the reader.
+		if r.sectorSize < 32 || r.sectorSize > 65536 || r.sectorSize&(r.sectorSize-1) != 0 {
+			return io.EOF
+		}
+
 		// Use page size from journal reader, if set to 0.
 		pageSize := binary.BigEndian.Uint32(hdr[24:])
 		if pageSize == 0 {
